@@ -45,6 +45,8 @@ func c19Context() pongo2.Context {
 		"s": "Hello World", "e": "", "n": 5, "z": 0, "f": 2.5, "l": []string{"b", "a", "c"}, "li": []int{3, 1, 2}, "nilv": nil, "tm": zTime,
 		"cfg": map[string]any{"sep": ", ", "w": 7, "fmt": "%v", "two": 2}, "html": "<b>x</b> & y", "items": []string{"i0", "i1", "i2", "i3"}, "plist": []int{4},
 		"words": "the quick brown fox jumps", "seps": []string{",", " ", "o", "World"},
+		// names are case-sensitive: these are ordinary names, not keywords
+		"OR": "or-value", "IN": "in-value", "As": "as-value", "Not": "not-value", "TRUE": "true-value", "Export": "export-value", "AND": 7,
 		"pick": func(i int) string {
 			seps := []string{",", " ", "o", "World"}
 			if i >= 0 && i < len(seps) {
@@ -448,7 +450,7 @@ func genC19Param(t *rapid.T, bound bool) c19P {
 	case "str":
 		return c19P{K: "str", S: pick(t, "ps", []string{"", " ", ",", "x", "1:3", ":2", "o", "y,ies", "ja,nein", "b,i", "%v", "%5v", "2006-01-02", "World", "abc", "&", "<", "<br>", "a'b", "&amp;", ">"})}
 	case "name":
-		return c19P{K: "name", S: pick(t, "pn", []string{"n", "z", "s", "e", "f", "nilv", "undefinedname"})}
+		return c19P{K: "name", S: pick(t, "pn", []string{"n", "z", "s", "e", "f", "nilv", "undefinedname", "IN", "AND", "Not"})}
 	case "path":
 		if drawBool(t, "nested") {
 			return c19P{K: pick(t, "nk", []string{"sub", "subf", "call"}), I: drawInt(t, 0, 3, "ni")}
@@ -470,7 +472,7 @@ func genC19(t *rapid.T) *c19Case {
 	case 1:
 		cs.In = c19P{K: "str", S: pick(t, "ins", []string{"", "Abc Def", "a,b", "<i>x</i>", "12", "x y z w"})}
 	default:
-		cs.In = c19P{K: "name", S: pick(t, "inn", []string{"s", "e", "n", "z", "f", "l", "li", "nilv", "html", "words", "tm", "undefinedname"})}
+		cs.In = c19P{K: "name", S: pick(t, "inn", []string{"s", "e", "n", "z", "f", "l", "li", "nilv", "html", "words", "tm", "undefinedname", "OR", "IN", "As", "Not", "TRUE", "Export", "AND"})}
 	}
 	if drawInt(t, 0, 2, "bound") == 0 {
 		cs.Bound = pick(t, "boundk", []string{"with", "for", "set", "for2", "for2"})
@@ -546,6 +548,9 @@ func TestC19Chain(t *testing.T) { runProp(t, "C19.chain") }
 // ---- unknown names never render silently; double registration is refused ----------------
 
 type c19Unknown struct {
+	// Name: the unregistered name ("" = verif_no_such_filter / verif_no_such_tag); names are
+	// case-sensitive, so "Upper" or "LOREM" are as unregistered as any other
+	Name string `json:"name,omitempty"`
 	Kind string `json:"kind"` // filter tag
 	Pos  string `json:"pos"`
 	Body string `json:"body"`
@@ -560,12 +565,20 @@ func checkC19Unknown(c any, r *Rec) error {
 	lazyOK := false
 	if cs.Kind == "tag" {
 		wraps := map[string]string{"top": "%s", "if": "{% if 0 %}%s{% endif %}", "for": `{% for i in "" %}%s{% endfor %}`, "macro": "{% macro m() %}%s{% endmacro %}", "block": "{% block b %}%s{% endblock %}", "else": "{% if 1 %}x{% else %}%s{% endif %}"}
-		src = strings.Replace(wraps[cs.Pos], "%s", "{% verif_no_such_tag 1 %}", 1)
+		tagName := "verif_no_such_tag"
+		if cs.Name != "" {
+			tagName = cs.Name
+		}
+		src = strings.Replace(wraps[cs.Pos], "%s", "{% "+tagName+" 1 w %}", 1)
 	} else {
-		tmp := &c19Case{In: c19P{K: "name", S: "s"}, Chain: []c19F{{Name: "verif_no_such_filter"}}, Pos: cs.Pos, Body: cs.Body}
+		filterName := "verif_no_such_filter"
+		if cs.Name != "" {
+			filterName = cs.Name
+		}
+		tmp := &c19Case{In: c19P{K: "name", S: "s"}, Chain: []c19F{{Name: filterName}}, Pos: cs.Pos, Body: cs.Body}
 		if cs.Pos == "filter_tag_second" {
 			tmp.Pos = "filter_tag"
-			tmp.Chain = []c19F{{Name: "upper"}, {Name: "verif_no_such_filter"}}
+			tmp.Chain = []c19F{{Name: "upper"}, {Name: filterName}}
 		}
 		files, _, _ := tmp.build()
 		src = files["/root.tpl"]
@@ -612,13 +625,13 @@ var _ = register(&propSpec{
 	Rule: "an unregistered filter name planted at each of the 19 positions (and as first / second filter of the filter tag with every body kind) and an unregistered tag name at top level and inside if / else / for / macro / block bodies (also dead ones), in the template itself or in one it includes (also with if_exists, also lazily), extends or imports: compilation must fail; in the filter tag at the latest execution must fail and nothing may be rendered. Every case is non-trivial.",
 	Gen: func(t *rapid.T) any {
 		if drawInt(t, 0, 3, "tag") == 0 {
-			cs := &c19Unknown{Kind: "tag", Pos: pick(t, "tpos", []string{"top", "if", "for", "macro", "block", "else"})}
+			cs := &c19Unknown{Kind: "tag", Pos: pick(t, "tpos", []string{"top", "if", "for", "macro", "block", "else"}), Name: pick(t, "tname", []string{"", "", "Lorem", "LOREM", "Now", "lorem_"})}
 			if cs.Pos != "block" && cs.Pos != "macro" {
 				cs.Via = pick(t, "via", []string{"", "", "include", "include_if_exists", "lazy_include_if_exists", "extends", "import"})
 			}
 			return cs
 		}
-		return &c19Unknown{Kind: "filter", Pos: pick(t, "fpos", append([]string{"filter_tag_second"}, c19Positions...)), Body: pick(t, "body", []string{"text", "var", "empty", "emptyvar", "loop"}),
+		return &c19Unknown{Kind: "filter", Name: pick(t, "fname", []string{"", "", "Upper", "LOWER", "capFirst", "Safe", "upper_"}), Pos: pick(t, "fpos", append([]string{"filter_tag_second"}, c19Positions...)), Body: pick(t, "body", []string{"text", "var", "empty", "emptyvar", "loop"}),
 			Via: pick(t, "via", []string{"", "", "include", "include_if_exists", "lazy_include_if_exists"})}
 	},
 	New:   func() any { return &c19Unknown{} },
